@@ -385,6 +385,7 @@ func (w *World) Cleanup() {
 	for p := w.Net.TakePeer(); p != nil; p = w.Net.TakePeer() {
 		_ = p.Close()
 	}
+	w.Net.ClosePeerEnds()
 	synctest.Wait()
 	if gs := LibGoroutines(); len(gs) > 0 {
 		// give abandoned stragglers their documented bound (close timeout) to finish
